@@ -37,6 +37,44 @@ CHECKS = {
     note="PLY's generation algorithm is trusted (cached vs fresh output compared); stale cache is a crafted file (older signature, "
          "tables lacking ALTER/INDEX/SEQUENCE actions); quick tier replays a stratified sample of behaviours.",
     design="DESIGN.md 3.1, 4 (C20)", technique=TECH + " (ParseTables.tla)"),
+ "C04": dict(
+    text="TLC model-checks OnlyTarget / HitsTarget / UnknownRaises / OrderKept / EffectOnColumns / Recorded / FlagsOnNamedColumn of "
+         "spec/Registry.tla (a transcription of Output.format's table registry and the BaseData alter methods) over every script of "
+         "<=2 tables out of a universe with same-named tables in two schemas and <=3-4 statements of 10 ALTER / CREATE INDEX kinds, "
+         "each target spelled as declared or differently, and must refute them on three defective mechanisms (registry keyed by name "
+         "only, by spelling, re-append loop). Every state of the generation configurations (every script prefix) is rendered to DDL "
+         "with seeded identifier spellings (plain, UPPER, double-quoted, [bracketed], backticked) and parsed by the real library; the "
+         "projected result (columns, alter sections, index records of every table, or the raised error) must equal the state TLC computed.",
+    note="Bounded scripts (<=4 statements exhaustive); spellings sampled per seed; column matching of ADD UNIQUE / DEFAULT FOR judged "
+         "for the declared spelling only; TLC, PLY, CPython trusted.",
+    design="DESIGN.md 3.6, 4 (C04)", technique=TECH + " (Registry.tla)"),
+ "C13": dict(
+    text="TLC model-checks GroupLossless and BucketRuleAgrees of spec/Registry.tla over every sequence of <=4-5 entities of the 8 kinds "
+         "with ALTER / CREATE INDEX results interleaved. Every state of the generation configuration is rendered (entity forms and "
+         "comments by seed) and parsed flat and grouped by the real library in several output modes (all 15 in the thorough tier): the "
+         "grouped result must be exactly the regrouping TLC computed (bucket -> positions in the flat list), entity dicts unchanged, "
+         "always-present buckets present, comments gathered.",
+    note="Entity forms per kind from a small pool; <=4 entities per script replayed; TLC, PLY, CPython trusted.",
+    design="DESIGN.md 3.6, 4 (C13)", technique=TECH + " (Registry.tla)"),
+ "C01": dict(
+    text="TLC model-checks ColumnsExact / AppendOnly (with PKExact, UniqueFlags, ShapeOK) of spec/TableFold.tla - the p_defcolumn "
+         "fold, the table production and BaseData.__post_init__ transcribed, against the declared-columns contract - over every order "
+         "of every subset of the core option groups {NULL|NOT NULL, DEFAULT, PRIMARY KEY, UNIQUE, REFERENCES} on a focus column at "
+         "position 1..3(4) for every type form, and must refute them on defective folds. Every complete behaviour of the generation "
+         "configurations (option orders x type forms x default forms x position) is rendered to CREATE TABLE (alone or between two "
+         "other tables) and parsed by the real library: the reported column list must equal the observable TLC computed.",
+    note="Bounded (<=4-5 options, <=4 columns); type/default/reference forms are pool representatives; TLC, PLY, CPython trusted.",
+    design="DESIGN.md 3.4, 4 (C01)", technique=TECH + " (TableFold.tla)"),
+ "C02": dict(
+    text="TLC model-checks PKExact / UniqueFlags / ConstraintsExact / RefsOnce / ChecksOnce of spec/TableFold.tla over every table of "
+         "<=3 columns with <=2(3) table-level items of the 8 forms (PRIMARY KEY / UNIQUE / CHECK / FOREIGN KEY, named or not, 1..3 "
+         "columns, any position among the columns) combined with inline PRIMARY KEY / UNIQUE / REFERENCES, including the separate "
+         "__post_init__ step, and must refute them on three defective folds. Complete behaviours (incl. all referential-action forms) "
+         "are rendered and parsed by the real library; keys, non-nullability of key columns, unique flags, named constraints, checks "
+         "and references must equal the contract observable. Deviations TLC itself reaches (Dev tags) are KNOWN-FINDINGs when listed.",
+    note="Unique flag of the sole column of a NAMED single-column UNIQUE not judged (left open by the property); bounded tables; "
+         "TLC, PLY, CPython trusted.",
+    design="DESIGN.md 3.4, 4 (C02)", technique=TECH + " (TableFold.tla)"),
 }
 NOT_YET = {}
 def main():
